@@ -10,6 +10,10 @@ CLAIMED = {
    "Model-based property testing of the real Fragments/MakeFragments code: exhaustive (total,seq) header sweep (65536 headers x 4 prior states), exhaustive permutations of <=5 (quick) / <=6 (thorough) fragments with every single duplicate, 65540-frame id wrap-around run, a real-clock id-reuse-vs-timer scenario, and 6 000 (quick) / 300 000 (thorough) generated multi-epoch schedules (reordering, duplicates, drops, malformed datagrams, expiry, id reuse) compared with an independent reference reassembler byte for byte. Sampled beyond the enumerated parts; absence of a counterexample is not a proof.",
    "Trusted: the harness' reference reassembler and refcodec::split_fragments; tokio/bytes; the stale-timer scenario uses the wall clock with a guard (inconclusive instead of failing when the host stalls).",
    "proptest model-based search + bounded-exhaustive enumeration vs reference reassembler", "§3 C11"),
+ "C12": ("vp-inproc", "exploration",
+   "Differential + reference-checked property testing of the real readers (HttpRequest/HttpResponse::read_from, SocksRequest::read_from incl. the SOCKS5 negotiation, SocksResponse::read_from, the RPFM StreamFrameReader): for generated valid messages from independent encoders, every explored segmentation (byte-at-a-time, a cut inside every field, generated cut sets, all 2^(n-1) cut sets for inputs <= 12 bytes) must give the same parsed message, the same reply bytes and leave exactly the trailing payload unread, and must agree with the encoded fields; every truncation point of 300 (quick) / 6 000 (thorough) messages must give no message. 2 500 / 150 000 generated cases.",
+   "Trusted: refcodec encoders (written from the RFCs / the frame comment), tokio's in-memory duplex as the segment carrier (a yield between segments lets the reader observe each boundary).",
+   "proptest differential (whole vs segmented) + round-trip against reference encoders + exhaustive cut sets for short inputs", "§3 C12"),
 }
 
 NOT_YET = "check not built yet in this session (see DESIGN.md §6 build order); will be claimed once its generator and oracle exist"
